@@ -12392,3 +12392,105 @@ func ruleLayerCacheFresh(c *Ctx) {
 	}
 	c.Floor("layer-cache-fresh.sites", n, 6)
 }
+
+// ruleGivenDAOUsed (C04, C01): a method of Blockchain that is handed the DAO layer to work on (a *dao.Simple
+// parameter) takes what it reads of the chain's settings from that layer. A zero-parameter getter of Blockchain
+// reads bc.dao - the persisted and fully processed blocks - and does not see what the transactions of the block being
+// processed have already written into the layer: a HALTed setStoragePrice / setExecFeeFactor of the same block is not
+// in force for the transactions that follow it, on this node only (finding-style: a stale read that splits the state).
+func ruleGivenDAOUsed(c *Ctx) {
+	isBC := func(fn *types.Func) bool {
+		sig, _ := fn.Type().(*types.Signature)
+		if sig == nil || sig.Recv() == nil {
+			return false
+		}
+		return namedTypeIsPtr(sig.Recv().Type(), "github.com/nspcc-dev/neo-go/pkg/core", "Blockchain")
+	}
+	getters := map[*types.Func]bool{}
+	for _, fd := range c.P.AllFuncDecls() {
+		if fd.Decl.Body == nil || fd.Decl.Recv == nil || !isBC(fd.Obj) || len(fd.Decl.Recv.List[0].Names) == 0 {
+			continue
+		}
+		if fd.Obj.Type().(*types.Signature).Params().Len() != 0 {
+			continue
+		}
+		info := fd.Pkg.TypesInfo
+		recv := info.ObjectOf(fd.Decl.Recv.List[0].Names[0])
+		ast.Inspect(fd.Decl.Body, func(x ast.Node) bool {
+			call, ok := x.(*ast.CallExpr)
+			if !ok {
+				return true
+			}
+			for _, a := range call.Args {
+				if se, ok := ast.Unparen(a).(*ast.SelectorExpr); ok && se.Sel.Name == "dao" {
+					if id, ok := ast.Unparen(se.X).(*ast.Ident); ok && info.ObjectOf(id) == recv {
+						getters[fd.Obj] = true
+					}
+				}
+			}
+			return true
+		})
+	}
+	c.Floor("given-dao-used.getters", len(getters), 5)
+	n := 0
+	for _, fd := range c.P.AllFuncDecls() {
+		if fd.Decl.Body == nil || fd.Decl.Recv == nil || !isBC(fd.Obj) {
+			continue
+		}
+		sig := fd.Obj.Type().(*types.Signature)
+		hasDAO := false
+		for i := 0; i < sig.Params().Len(); i++ {
+			if namedTypeIsPtr(sig.Params().At(i).Type(), "github.com/nspcc-dev/neo-go/pkg/core/dao", "Simple") {
+				hasDAO = true
+			}
+		}
+		if !hasDAO {
+			continue
+		}
+		info := fd.Pkg.TypesInfo
+		fn := shortSym(FuncKey(fd.Obj))
+		// a method every caller of which passes bc.dao itself works on the persisted state anyway
+		foreign := false
+		for _, cd := range c.P.AllFuncDecls() {
+			if cd.Decl.Body == nil || cd.Pkg != fd.Pkg {
+				continue
+			}
+			ast.Inspect(cd.Decl.Body, func(x ast.Node) bool {
+				call, ok := x.(*ast.CallExpr)
+				if !ok || calleeFunc(info, call) != fd.Obj {
+					return true
+				}
+				for i, a := range call.Args {
+					if i < sig.Params().Len() && namedTypeIsPtr(sig.Params().At(i).Type(), "github.com/nspcc-dev/neo-go/pkg/core/dao", "Simple") {
+						if se, ok := ast.Unparen(a).(*ast.SelectorExpr); !ok || se.Sel.Name != "dao" {
+							foreign = true
+						}
+					}
+				}
+				return true
+			})
+		}
+		if !foreign {
+			continue
+		}
+		n++
+		bad := 0
+		ast.Inspect(fd.Decl.Body, func(x ast.Node) bool {
+			call, ok := x.(*ast.CallExpr)
+			if !ok {
+				return true
+			}
+			g := calleeFunc(info, call)
+			if g == nil || !getters[g] {
+				return true
+			}
+			bad++
+			c.Fail(fmt.Sprintf("given-dao-used:%s.%s", fn, g.Name()), c.P.Pos(call.Pos()), fmt.Sprintf("%s is given the DAO layer to work on and takes a value from %s, which reads bc.dao: what the earlier transactions of the block being processed have written into the layer (a HALTed change of a native setting) is not seen, so the setting is not in force for the transactions that follow it in the same block - on this node only", fn, shortSym(FuncKey(g))))
+			return true
+		})
+		if bad == 0 {
+			c.OK("given-dao-used:"+fn, c.P.Pos(fd.Decl.Pos()), "no getter of the persisted state is consulted next to the given layer")
+		}
+	}
+	c.Floor("given-dao-used.methods", n, 4)
+}
